@@ -26,12 +26,13 @@ import (
 const c12Mark = "⟦H"
 
 type c12Handler struct {
-	flood   int // answer the first admitted message with this many 60 kB messages
-	mu      sync.Mutex
-	got     []mocrelay.ClientMsg
-	emitted []mocrelay.ServerMsg
-	seed    int
-	seq     int
+	flood    int // answer the first admitted message with this many 60 kB messages
+	mu       sync.Mutex
+	got      []mocrelay.ClientMsg
+	emitted  []mocrelay.ServerMsg
+	seed     int
+	seq      int
+	lastEvID string
 }
 
 func c12ServerMsg(r *rand.Rand, n int) mocrelay.ServerMsg {
@@ -90,6 +91,15 @@ func (h *c12Handler) ServeNostr(ctx context.Context, send chan<- mocrelay.Server
 			for k := nEmit; k > 0; k-- {
 				h.seq++
 				sm := c12ServerMsg(r, h.seq)
+				if em, is := sm.(*mocrelay.ServerEventMsg); is {
+					// now and then a different event under the id of the previous one (a relay does
+					// not re-verify what its handler emits; each message is its own)
+					if h.lastEvID != "" && r.IntN(3) == 0 {
+						em.Event.ID = h.lastEvID
+					} else {
+						h.lastEvID = em.Event.ID
+					}
+				}
 				if nEmit > 10 {
 					sm = mocrelay.NewServerNoticeMsg(fmt.Sprintf("%s%d⟧", c12Mark, h.seq) + strings.Repeat("x", 60000))
 				}
